@@ -3,7 +3,7 @@ import re, itertools
 from vlib import core
 
 PROP = 'C11'
-MODULES = ['PistacheModel.Props.C11', 'PistacheModel.Props.C11Global', 'PistacheModel.Props.C11Reject', 'PistacheModel.Props.C11Value', 'PistacheModel.Props.C11Rethrow', 'PistacheModel.Props.C11NoThrow']
+MODULES = ['PistacheModel.Props.C11', 'PistacheModel.Props.C11Global', 'PistacheModel.Props.C11Reject', 'PistacheModel.Props.C11Value', 'PistacheModel.Props.C11Rethrow', 'PistacheModel.Props.C11NoThrow', 'PistacheModel.Props.C11Complete']
 THEOREMS = ['Pistache.Promise.Props.' + t for t in (
     'reject_step_no_call', 'resolve_step_call', 'resolve_step_guard', 'reject_step_guard', 'late_resolve_silent', 'late_reject_silent',
     'then_on_fulfilled_runs_now', 'then_on_rejected_runs_now')] + \
@@ -11,8 +11,9 @@ THEOREMS = ['Pistache.Promise.Props.' + t for t in (
                                                          'step_allRej', 'reject_op_no_call', 'reject_after_program_no_call',
                                                          'good_execAll', 'call_has_value', 'handler_gets_exception', 'settled_stays', 'requests_persist',
                                                          'reth_execAll', 'rethrow_same_exception', 'rethrow_chain_link',
-                                                         'thrown_only_when_settled', 'settle_pending_never_throws', 'reject_pending_never_throws')] + \
-           ['Pistache.Promise.' + t for t in ('inv_step', 'inv_run', 'own_step', 'own_run', 'sound_step', 'sound_run', 'good_exec', 'reth_step', 'reth_run', 'reth_exec', 'data_step', 'data_run', 'data_exec', 'all_spent')]
+                                                         'thrown_only_when_settled', 'settle_pending_never_throws', 'reject_pending_never_throws',
+                                                         'sched_execAll', 'fulfilled_continuation_ran_partial', 'rejected_continuation_told_partial')] + \
+           ['Pistache.Promise.' + t for t in ('inv_step', 'inv_run', 'own_step', 'own_run', 'sound_step', 'sound_run', 'good_exec', 'reth_step', 'reth_run', 'reth_exec', 'data_step', 'data_run', 'data_exec', 'all_spent', 'sched_step', 'sched_run')]
 
 class Builder:
     """builds a well-typed program: tracks which promise ids exist, their C++ type, and which may still be used"""
